@@ -145,7 +145,7 @@ Section Exec.
                         true (term_req s) (cur_exc s) (cleanup_ran s) (persistent_cleanup s) (rvar s) (mark s)
     | JoinCtrl | ReleaseCtrl =>
         mkCs (step s) (inj s) (result_var s) (comms s) (comms_closed s) (rpipe_end s) (rpipe_closed s) (cleaned s)
-             (match e with JoinCtrl => false | _ => ctrl_alive s end) (term_req s) (cur_exc s) (cleanup_ran s) (persistent_cleanup s) (rvar s) (mark s)
+             false      (* released = told to finish: it can no longer deliver a terminate request either *) (term_req s) (cur_exc s) (cleanup_ran s) (persistent_cleanup s) (rvar s) (mark s)
     | _ => s
     end.
 
